@@ -140,7 +140,7 @@ def text_strategy():
         earlier = []
         for _ in range(n):
             kind = draw(st.sampled_from(("filler-out", "filler-in", "unicode", "valid23", "valid23", "valid4", "near", "repeat",
-                                         "respelled-repeat", "glued", "minor", "min-v2", "encoded")))
+                                         "respelled-repeat", "glued", "minor", "minor-twin", "min-v2", "encoded")))
             if kind == "filler-out":
                 chunks.append(draw(st.text(alphabet=FILLER_OUT, min_size=1, max_size=8)))
             elif kind == "filler-in":
@@ -186,6 +186,14 @@ def text_strategy():
                 v = draw(gen.valid(ver))
                 c = draw(st.sampled_from(":/"))
                 chunks.append(" " + v.replace(c, draw(st.sampled_from(gen.encodings(c)))) + " ")
+            elif kind == "minor-twin":
+                # the same metric assignment under BOTH minor versions (other field order): two different vectors, both to be returned
+                v = draw(gen.valid("3"))
+                prefix, m = ref.parse("3", v)
+                twin = ref.build("CVSS:3.1/" if prefix == "CVSS:3.0/" else "CVSS:3.0/", m, gen.ordered(set(m), spec.VERS["3"].order, draw(gen.order_seed())))
+                chunks.append(" " + v + draw(st.sampled_from((" ", "\n", " vs. ", ", "))) + twin + " ")
+                planted.append(["3", v])
+                planted.append(["3", twin])
             elif kind == "minor":
                 v = draw(gen.valid("3"))
                 chunks.append(" " + v.replace("CVSS:3.0", "CVSS:3.%d" % draw(st.integers(2, 9))).replace("CVSS:3.1", "CVSS:3.%d" % draw(st.integers(2, 9))) + " ")
@@ -241,5 +249,5 @@ def run(tier, t0):
     return runner.finish(part, tier, t0, rule,
                          ["results compared as a set (order comes from a set and is unspecified)",
                           "completeness asserted only for planted vectors that occur delimited on both sides", fuzz_note],
-                         required=["chunk:" + k for k in ("filler-out", "filler-in", "unicode", "valid23", "valid4", "near", "repeat", "respelled-repeat", "glued", "minor", "min-v2", "encoded")]
+                         required=["chunk:" + k for k in ("filler-out", "filler-in", "unicode", "valid23", "valid4", "near", "repeat", "respelled-repeat", "glued", "minor", "minor-twin", "min-v2", "encoded")]
                          + ["has-delimited-vector", "has-undelimited-vector", "26-char-v2", "atheris-execs:text", "special-delimiter", "long-text"])
